@@ -75,6 +75,9 @@ pub enum Which {
     C11,
     /// C12 on the real glue: with the guard off every stall flag is cleared by every client datagram, whatever its kind
     C12,
+    /// C02 on real routing: a datagram the real send_stall_probes duplicated onto a gated link is in flight on both
+    /// links once both have flushed (every transmitted, unretired sequence number counts - probe copies too)
+    C02,
 }
 
 fn adv() -> impl Strategy<Value = u32> {
@@ -372,7 +375,7 @@ pub fn check(case: &Case, obs: &mut Obs, which: Which, ctx: &Ctx) -> CheckResult
                             obs.class("guard-off-must-land-datagram");
                         }
                     }
-                    if which == Which::C05 && *kind != 2 && !holders.is_empty() {
+                    if (which == Which::C05 || which == Which::C02) && *kind != 2 && !holders.is_empty() {
                         let gated: Vec<usize> = holders.iter().copied().filter(|i| sh.st.conns[*i].is_stall_gated()).collect();
                         let ungated: Vec<usize> = holders.iter().copied().filter(|i| !sh.st.conns[*i].is_stall_gated()).collect();
                         if !gated.is_empty() && ungated.len() == 1 {
@@ -383,6 +386,19 @@ pub fn check(case: &Case, obs: &mut Obs, which: Which, ctx: &Ctx) -> CheckResult
                             let _ = sh.drain_wire();
                             let snap = |sh: &Shell| -> Vec<(u64, i32, i32, i32)> { sh.st.conns.iter().map(|c| (c.conn_id, c.total_nak_count(), c.window, c.in_flight_packets)).collect() };
                             let held_by: Vec<u64> = sh.st.conns.iter().filter(|c| c.packet_log.contains_key(&(seq as i32))).map(|c| c.conn_id).collect();
+                            if which == Which::C02 {
+                                // nothing was acknowledged in between: whoever transmitted the number holds it
+                                for g in gated.iter().chain(ungated.iter()) {
+                                    let c = &sh.st.conns[*g];
+                                    if c.connected {
+                                        vensure!(held_by.contains(&c.conn_id), "transmitted-not-in-flight", "op {oi}: datagram seq {seq} left on link {g} ({}) but is not in that link's in-flight set (in-flight {}, holders {:?})", if gated.contains(g) { "duplicate probe on a stall-gated link" } else { "unique copy" }, c.in_flight_packets, held_by);
+                                        vensure!(c.in_flight_packets as usize == c.packet_log.len(), "in-flight-mismatch", "op {oi}: link {g} in-flight count {} != {} logged numbers", c.in_flight_packets, c.packet_log.len());
+                                    }
+                                }
+                                nontrivial = true;
+                                obs.class("probe-duplicate-in-flight-on-both");
+                                continue;
+                            }
                             let mut nak = vec![0x80u8, 0x03, 0, 0];
                             nak.extend_from_slice(&seq.to_be_bytes());
                             // the NAK arrives on the gated link, on the carrier, or elsewhere
